@@ -120,7 +120,7 @@ def rx(e):
   if isinstance(e, Bin):
     return '(%s %s %s)' % (rx(e.a), e.op, rx(e.b))
   if isinstance(e, UMinus):
-    return '-%s' % rx(e.e) if isinstance(e.e, (Bin, Var)) else '-(%s)' % rx(e.e)
+    return '(-%s)' % rx(e.e) if isinstance(e.e, (Bin, Var)) else '(-(%s))' % rx(e.e)
   if isinstance(e, ListE):
     return '[' + ', '.join(rx(x) for x in e.items) + ']'
   if isinstance(e, RecE):
@@ -185,6 +185,9 @@ def rp(p, top=False):
     s = ', '.join(rp(x) for x in p.items)
     return s if top else '(' + s + ')'
   if isinstance(p, Disj):
+    if top and getattr(p, 'bare', False):
+      # `A, B | C` : disjunction binds weaker than conjunction
+      return ' | '.join(rp(x, top=True) for x in p.items)
     s = ' | '.join(rp(x) for x in p.items)
     return '(' + s + ')'
   if isinstance(p, Neg):
